@@ -143,7 +143,13 @@ def buildEnv (j : Json) : Env × B :=
     let ws := match obj? dj "wrappers" with
       | some w => if isNull w then [none] else (arr! w).map optsOf
       | none => [none]
-    (acc.1 ++ [{ kind := kind, dfs := bool! (fld dj "dfs"), fields := fields, wrappers := ws }], b)) ([], { next := 0 })
+    let fk := match (obj? dj "fkind").map str! with
+      | some "async" => FKind.async | some "gen" => FKind.gen | some "agen" => FKind.agen | _ => FKind.sync
+    let ret := match obj? dj "ret" with
+      | some r => if isNull r then none else some (str! (fld r "field"), tyOf (fld r "ty"))
+      | none => none
+    (acc.1 ++ [{ kind := kind, dfs := bool! (fld dj "dfs"), fields := fields, wrappers := ws,
+                 fkind := fk, eager := bool! (fld dj "eager"), ret := ret }], b)) ([], { next := 0 })
 
 partial def valJ : Val → Json
   | .none => Json.null
@@ -173,7 +179,10 @@ def stepJ (legacy : Bool) (r : Run) (j : Json) : Run :=
   match str! (fld j "op") with
   | "call" =>
       let (inp, b) := buildVal r.w.roots (fld j "input") { next := r.w.next }
-      match (match inp with | .node _ .dict _ _ => b.bad | _ => some "input is not a plain dict") with
+      match (match inp with
+             | .node _ .dict _ _ => b.bad
+             | .node _ .tuple _ [.node _ .dict _ _, .node _ .dict _ _] => b.bad      -- `Cls(d, **kw)`
+             | _ => some "input is not a plain dict") with
       | some why => { r with unm := some why, outs := r.outs ++ [.unmodelled why] }
       | none => fin (stp r.w (.call (nat! (fld j "target")) (nat! (fld j "wrapper")) (b.next - r.w.next) inp))
   | "mutate" =>
